@@ -41,6 +41,7 @@ type Profile struct {
 	NegMapProbe  bool   // templates may reference a symbol mapped only before the last move (C05)
 	RelWeight    int    // weight of relative targets against 6 for named ones (default 3)
 	EndWeight    int    // weight of each kind of end node against 6 for menu nodes (default 1)
+	ManySyms     bool   // up to 28 external symbols, nodes that load up to 20 of them
 	Unicode      bool   // multi-byte UTF-8 in labels, translations, static template text and padded values
 	StaticSyms   bool   // some external symbols are static-load symbols with per-language entries
 	InputWeight  int    // weight of input-consuming nodes (HALT .. MOVE) against 6 for menu nodes (default 2)
@@ -86,6 +87,9 @@ func Generate(t *tape.Tape, p Profile) *App {
 	ne := 0
 	if p.MaxExt > 0 {
 		ne = t.Range(0, p.MaxExt)
+		if p.ManySyms {
+			ne = t.Range(17, 28)
+		}
 	}
 	for i := 0; i < ne; i++ {
 		t.Begin("ext")
@@ -299,6 +303,9 @@ func Generate(t *tape.Tape, p Profile) *App {
 		// LOADs
 		if len(a.Ext) > 0 {
 			nl := t.Weighted(3, 4, 2, 1)
+			if p.ManySyms && t.Chance(1, 2) {
+				nl = t.Range(8, 20)
+			}
 			for j := 0; j < nl; j++ {
 				e := a.Ext[t.Int(len(a.Ext))]
 				dup := false
